@@ -115,15 +115,46 @@ def prop_liveness(drv, info, i0, n):
     return None
 
 
+# owner-clock shapes: (timeout ticks, lag, dt ticks, idle calls before the cut, first socket's lag,
+# event-stream retry ms or None); all meet the pacing premise (lag+1)*dt < timer duration
+OWNER_SHAPES = [(2, 0, 1, 0, 0, None), (4, 1, 1, 0, 0, None), (4, 0, 1, 3, 1, None), (5, 0, 2, 2, 0, None),
+                (8, 2, 1, 1, 2, None), (8, 1, 3, 0, 0, None), (16, 3, 1, 5, 0, None), (16, 1, 5, 1, 1, None),
+                (8, 1, 1, 1, 0, 1000), (3, 0, 1, 0, 0, 500)]
+
+
+def prop_owner(drv, info):
+    """executable statement on an owner-clock history (premise: it did connect and did see the cut)"""
+    if not (info["first_connected"] and info["cut_seen"]):
+        return None
+    if not info["connected"]:
+        return ("not connected %d service calls after the cut although the listener is up and %d ticks went by on "
+                "the owner's clock (tcp client's own store saw %d)" % (
+                    info["n"], info["owner_clock_elapsed_ticks"], info["client_clock_elapsed_ticks"]))
+    if not (info["same_clock"] and info["same_clock_after"]):
+        return "the owner's clock object is not the store of the tcp client it built"
+    if info["ca"] != harness.LBASE + info["sid"] or info["ha"] != harness.PBASE + info["sid"]:
+        return "ca/ha are not the live socket's addresses"
+    if drv == "Stack" and info["lha"] != info["ca"]:
+        return "stack local.ha is not the live socket's local address"
+    return None
+
+
 def run(ctx):
     ctx.rule = ("schedules = (driver Bare|Patron|Stack, reconnectable, timeout, connect_ex oracle table per "
                 "socket, ticks (clock advance, far-side cut)); each is run on the real classes with a socket "
                 "double and on the Coq model, whole observation stream compared inside Coq; non-trivial = "
-                "at least one reopen and (a cut or a timer expiry); distinct by full schedule")
+                "at least one reopen and (a cut or a timer expiry); distinct by full schedule.  Directed family "
+                "'owner-clock' (runs first): Patron (non-TLS) / TcpClientStack built WITHOUT and WITH a store "
+                "(stamper) argument construct their own tcp client, connect, are cut off by the peer while the "
+                "listener stays up; time advances only through owner.store / owner.stamper, service only through "
+                "serviceAll / serviceWhile / serviceWhileGen; statement: connected again after "
+                "ceil(timeout/dt)+lag+1 calls and the owner's clock IS the client's store (implementation only)")
     ctx.assumptions = [
         "socket double: connect_ex returns the oracle's errno and never raises; recv returns b'' exactly when the "
         "schedule cuts the connection, else EAGAIN; getsockname/getpeername are functions of the socket index",
         "store time in multiples of 1/8 s (exact binary64 arithmetic); model time = integer ticks",
+        "owner-clock family: time.sleep inside Patron.serviceWhile is replaced by a no-op (its store advance of "
+        "0.125 s per iteration is the real code's)",
         "liveness premise (in the theorem): per call dmin <= dt <= dmax, 0 < dmin, (lag+1)*dmax < timeout, no cut "
         "in the window, sockets created after the server is up connect after at most lag in-progress results",
     ]
@@ -159,6 +190,32 @@ def run(ctx):
                           clist([cz(x) for x in out], "Z")))
         metas.append({"drv": drv, "rc": rc, "tmo": tmo, "table": table, "dflt": dflt, "ticks": ticks,
                       "info": info, "live": live, "own": own, "retry_ms": retry_ms})
+
+    # 0. directed family (runs first, both tiers): owner-clock histories.  The owner builds its tcp
+    #    client itself, without / with a store argument; time moves ONLY through the owner's clock
+    #    (Patron.store / TcpClientStack.stamper), service ONLY through the owner's public methods.
+    owner_runs = []
+    for drv, vias in (("Patron", ("serviceAll", "serviceWhileGen", "serviceWhile")), ("Stack", ("serviceAll",))):
+        for with_store in (False, True):
+            for via in vias:
+                for tmo, lag, dt, idle, first_lag, ev in OWNER_SHAPES:
+                    if (via == "serviceWhile" and dt != 1) or (ev is not None and drv != "Patron"):
+                        continue
+                    inp = {"driver": drv, "store_argument_given": with_store, "service_via": via,
+                           "timeout_ticks": tmo, "lag": lag, "dt_ticks": dt, "idle_calls_before_cut": idle,
+                           "first_socket_lag": first_lag, "event_stream_retry_ms": ev}
+                    info = harness.run_owner(drv, with_store, via, tmo, lag, dt, idle, first_lag, ev)
+                    why = prop_owner(drv, info)
+                    ctx.case(inp, nontrivial=info["first_connected"] and info["cut_seen"] and info["opens_after_cut"] >= 1,
+                             kind="owner-clock")
+                    owner_runs.append((inp, info, why))
+    owner_bad = [r for r in owner_runs if r[2]]
+    ctx.extra["owner_clock_cases"] = len(owner_runs)
+    ctx.extra["owner_clock_premise_met"] = sum(1 for r in owner_runs if r[1]["first_connected"] and r[1]["cut_seen"])
+    ctx.extra["owner_clock_failures"] = len(owner_bad)
+    for inp, info, why in owner_bad[:3]:
+        ctx.tie_broken("correspondence", "C27 owner-clock history vs reconnect_bounded",
+                       "%s: input=%r observed=%r" % (why, inp, info))
 
     drivers = ["Bare", "Patron", "Stack"]
     # 1. small-scope exhaustive: every tick sequence of length L over dt in {0,2}, cut in {F,T}
@@ -276,6 +333,18 @@ def run(ctx):
         # reconnectable client losing an established connection; anything else is 'reconnect'
         only_bare = bool(bad) and all(bare_cut(metas[i]) for i in bad)
         best = None
+        for inp, info, why in owner_bad:    # directed owner-clock histories first (smallest input wins)
+            cand = dict(inp, key="reconnect", observed=info, why=why,
+                        history="owner built with%s store argument, reconnectable, listener up all the time; connect, "
+                                "%d idle calls, peer closes, then %d calls %d tick(s) (1/8 s) apart, time advanced only "
+                                "through the owner's clock" % ("" if inp["store_argument_given"] else "out",
+                                                                inp["idle_calls_before_cut"], info["n"], inp["dt_ticks"]),
+                        expected="connected and not cut off after ceil(timeout/dt)+lag+1 = %d service calls, and the "
+                                 "owner's clock object is the tcp client's store" % info["n"],
+                        contradicts="C27.Props.reconnect_bounded / reconnect_after_any_history")
+            rank = (False, -1000 + info["n"] + inp["idle_calls_before_cut"] + inp["first_socket_lag"])
+            if best is None or rank < best[0]:
+                best = (rank, cand)
         for m in metas:
             why = None
             info = m["info"]
